@@ -322,6 +322,27 @@ type State struct {
 	trail   []string
 	ghostTmp map[string]Val // spec-level bindings attached to the path (event variables)
 	dead    bool
+	writes  map[string][]wr // heap component -> locations written since function entry
+}
+
+// wr records a write into a heap component at reference ref ("*" = anywhere) under guard.
+type wr struct {
+	guard string
+	ref   string
+}
+
+func (s *State) wrote(comp, ref, guard string) {
+	if s.writes == nil {
+		s.writes = map[string][]wr{}
+	}
+	w := wr{and(s.guard(), guard), ref}
+	for _, o := range s.writes[comp] {
+		if o == w {
+			return
+		}
+	}
+	l := s.writes[comp]
+	s.writes[comp] = append(l[:len(l):len(l)], w)
 }
 
 func (s *State) fork() *State {
@@ -336,6 +357,12 @@ func (s *State) fork() *State {
 	n.cond = s.cond[:len(s.cond):len(s.cond)]
 	n.defers = s.defers[:len(s.defers):len(s.defers)]
 	n.trail = s.trail[:len(s.trail):len(s.trail)]
+	if s.writes != nil {
+		n.writes = make(map[string][]wr, len(s.writes))
+		for k, v := range s.writes {
+			n.writes[k] = v
+		}
+	}
 	if s.ghostTmp != nil {
 		n.ghostTmp = map[string]Val{}
 		for k, v := range s.ghostTmp {
